@@ -235,7 +235,7 @@ def run_check(prop: str, tier: str = "quick", replay: Optional[str] = None) -> i
             from .selftest.runner import run_for_property
 
             st = run_for_property(prop)
-            res.universe["selftest"] = {"entries": len(st), "ok": sum(1 for x in st if x["status"] == "ok"), "skipped": [x["id"] for x in st if x["status"] == "skipped"], "undecided": [x["id"] for x in st if x["status"] == "undecided"], "failed": [x["id"] for x in st if x["status"] == "FAILED"]}
+            res.universe["selftest"] = {"entries": len(st), "ok": sum(1 for x in st if x["status"] == "ok"), "skipped": [x["id"] for x in st if x["status"] == "skipped"], "undecided": [x["id"] for x in st if x["status"] == "undecided"], "missed": [x["id"] for x in st if x["status"] == "missed"], "failed": [x["id"] for x in st if x["status"] == "FAILED"]}
             for x in st:
                 if x["status"] == "ok":
                     res.ok("SELFTEST", {"edit": x["id"], "kind": x["kind"], "check exit": x["exit"]}, nontrivial=x["id"])
